@@ -188,6 +188,8 @@ def run_tree(history, tree, frac=False, recalc_history=None):
             try:
                 r = build(tree, nodes)
                 if recalc_history is not None:
+                    if not hasattr(r, "recalculate"):
+                        raise CaseInvalid("recalculate on a measurement")
                     apply_history(recalc_history)
                     del w[:]
                     r.recalculate()
@@ -206,13 +208,18 @@ def run_tree(history, tree, frac=False, recalc_history=None):
         reset_state()
 
 
+def printable(obs):
+    """exponents are printed through Fraction(x).limit_denominator(10): exact when the stored exponents are integers or
+    halves and the definitions use integers or halves of magnitude <= 3 (then a packed power has a denominator <= 6)"""
+    return all(d <= 2 and abs(n) <= 12 for _, n, d in obs["unit"]) and \
+        all(d <= 2 and abs(Fraction(n, d)) <= 3 for _, n, d in obs["defs_items"])
+
+
 def shown_items(obs, frac):
     """the printed unit read back, or None when exponents are not printed exactly (limit_denominator(10))"""
     if obs.get("exc"):
         return None
-    ok = all(d <= 2 and abs(n) <= 12 for _, n, d in obs["unit"]) and \
-        all(d <= 2 and abs(Fraction(n, d)) <= 3 for _, n, d in obs["defs_items"])
-    if not ok:
+    if not printable(obs):
         return None
     U = _U()
     text = obs["text"]
@@ -703,7 +710,7 @@ def oracle_check(history, tree, frac=False):
             printed = parse_printed(obs["text"])
     except Exception as e:  # noqa
         return "the printed unit {!r} cannot be read back ({})".format(obs["text"], e)
-    printable = all(d <= 8 for _, _, d in obs["unit"]) and all(d <= 2 and abs(Fraction(n, d)) <= 3 for _, n, d in obs["defs_items"])
+    can_print = printable(obs)
     if exp[0] == "mismatch":
         if not obs["warned"]:
             return "operands of +/- have different dimensions but no mismatch warning was issued (unit reported: {!r})".format(obs["text"])
@@ -715,7 +722,7 @@ def oracle_check(history, tree, frac=False):
         return "mismatch warning although all operands of +/- agree in dimension (expected {})".format(fmt_dim(want))
     try:
         got = o_expand(obs["unit"], defs)
-        got_printed = o_expand(printed, defs) if printable else want
+        got_printed = o_expand(printed, defs) if can_print else want
     except Cyclic:
         return None
     if got != want:
